@@ -13,6 +13,9 @@ package serve
 //@ func ServeCmd$1
 //@ props C12 C06
 //@ abstract-calls .*
+// the base url of the links sent to workers is the configured one as configured (C19, C07: claim/complete/heartbeat
+// links for that exact task); only an empty setting is filled in with the api's own address
+//@ site store Url assert [C19 C07 C20] old == ""
 //@ loop-complete 1
 //@ loop-complete 2
 //@ site call Stop assert [C12 C06] calls("Loop") == 1
